@@ -1149,6 +1149,14 @@ func (g *schemaGenerator) generateEnumType(t *schemas.Type, scope nameScope) (co
 		return nil, errEnumArrCannotBeEmpty
 	}
 
+	// Objects and arrays cannot be enum values, whether or not the enum declares a type.
+	for _, v := range t.Enum {
+		switch v.(type) {
+		case map[string]any, []any:
+			return nil, fmt.Errorf("%w %v", errEnumNonPrimitiveVal, v)
+		}
+	}
+
 	var wrapInStruct bool
 
 	var enumType codegen.Type
